@@ -131,7 +131,7 @@ def run(ctx):
                       workers=12 if q else 16, sensitivity="one" if q else True, Shapes=shapes)
     ctx.phase("mc done")
     # depth 1 + contexts, then depth 2 (thinned separately)
-    vec = cexpr.generate(ctx, FAMS, STRIDE if q else 1, 40 if q else 8, workers=12 if q else 16, minimum=2000)
+    vec = cexpr.generate(ctx, FAMS, STRIDE if q else 1, 5 if q else 1, workers=12 if q else 16, minimum=2000, base=1, d2base=8)
     ctx.phase("gen done (%d vectors)" % len(vec))
     for v in vec[:: max(1, len(vec) // 4)][:4]:
         ctx.sample(dict(kind="vector", family=v["f"], expr=cexpr.const_text(v["e"]), dest=v["d"], expected_ulong=v["u"],
